@@ -89,7 +89,9 @@ def run(ctx):
     A = ctx.body('Peers::add_block')
     cl = [x for x in P.closures_of(A) if any(s.kind == 'assign' and re.search(r'\.1: std::option::Option<ckb_types::packed::Block>\) = ', s.text)
                                              for b in x.blocks.values() if not b.cleanup for s in b.stmts)]
-    ctx.floor('C02.r3', 'closure of Peers::add_block storing Some(block)', len(cl), 1)
+    if not cl:
+        # the reviewed shape (store inside the get_mut(..).map closure, under `if value.0`) is gone: report it; C02.ref describes what add_block does now
+        ctx.ob('C02.r3', A.name, 'body stored only on the proved==true edge', False, problem='no store of Some(block) under the proved flag found in Peers::add_block')
     for x in cl:
         ctx.fn(x)
         sb = [bid for bid, b in x.blocks.items() if not b.cleanup and any(
